@@ -1,5 +1,5 @@
 From Coq Require Import List ZArith Bool.
-From Yv Require Import Base.Sx Sweep.Sweep Gen.SweepGen.
+From Yv Require Import Base.Sx Sweep.Sweep Gen.SweepGen Sweep.SweepBase Sweep.SweepTdvpBody Sweep.SweepTdvp12.
 Import ListNotations.
 Open Scope Z_scope.
 
@@ -65,3 +65,12 @@ Fixpoint label_ops (pre : bool) (N : Z) (ops : list op) (s : st) : list sx :=
 Definition run_prog_ops (a : sx) : sx :=
   let p := dZ (dNth a 0) in let pre := dB (dNth a 1) in let N := dZ (dNth a 2) in
   Sx.L (label_ops pre N (prog_ops p N) (ready_state N)).
+
+(* 132: the operations of one mixed (12site) sweep given the recorded decisions of env.enlarge_bond. arg: (pre N decisionsL decisionsF), one decision per
+   visited site in visiting order *)
+Definition run_prog12_ops (a : sx) : sx :=
+  let pre := dB (dNth a 0) in let N := dZ (dNth a 1) in
+  let dl := dList dB (dNth a 2) in let df := dList dB (dNth a 3) in
+  let orcL := fun n => let b := nth (Z.to_nat n) dl false in (b, b) in
+  let orcF := fun n => let b := nth (Z.to_nat (N - 1 - n)) df false in (b, b) in
+  Sx.L (label_ops pre N (flat (sweep12_ops N orcL orcF)) (ready_state N)).
